@@ -46,7 +46,10 @@ PROPS["C16"] = dict(
     streams=[dict(name="coinswap", quick=90, thorough=2500), dict(name="farm", quick=80, thorough=2000),
              dict(name="htlc", quick=90, thorough=2500), dict(name="service", quick=90, thorough=2500),
              dict(name="token", quick=80, thorough=2000)],
-    rule="one case = one module, one generated parameter set (each field: default, zero, boundary, just outside the valid range, "
+    rule="the first 26..59 cases of each stream are a deterministic boundary sweep (the default set with one field set to each value of a "
+         "fixed table: 0, 10^-18, 1-10^-18, 1, 1+10^-18, 2, -1, absent, 2^300, -2^200 for rates; 0, 1, -1, absent, 2^256-1, 2^255, 2^254 for amounts; "
+         "invalid denoms; lock / timeout / multiple extremes), sent by the authority or through genesis and followed by one instance of every "
+         "operation kind; the other cases: one module, one generated parameter set (each field: default, zero, boundary, just outside the valid range, "
          "extreme magnitude, negative, absent = really nil through raw protobuf bytes; mostly one field varied, sometimes 2-3), "
          "submitted as MsgUpdateParams by the authority (60%), by a stranger (20%) or through the module's InitGenesis (20%); then 4-12 "
          "operations of the module executed under the stored set and, identically, on a second chain under the defaults; "
